@@ -28,7 +28,9 @@ DEFAULTS = ["http://d/", "http://a/"]
 
 
 # local parts that repeat a namespace URI (a URL carried inside a URL)
-NESTED_LOCALS = ["r?u=http://a/z", "http://other/x"]
+NESTED_LOCALS = ["r?u=http://a/z", "http://other/x",
+                 # local parts with line ends: a name is split at its first colon and nowhere else
+                 "a\n", "a\r\n", "a\nb", "\na", "a:b\n"]
 
 
 def gen_history(g, w, n_ops, probes=True):
@@ -204,6 +206,9 @@ def judge(ctx, w, failures, mo):
             i, msg = df
             out.append(Failure("corr", None, "op %d %s: %s" % (i, json.dumps(w.ops[i])[:300], msg[:600]),
                                {"ops": w.ops[:i + 1], "impl": w.outs[i]}))
+    for (what, e, at) in getattr(w, "crashes", []):
+        out.append(Failure("oracle", None, "%s raised %r (the resolver answers None for what it cannot resolve)" % (what, e),
+                           {"ops": list(w.ops[:at + 1])}))
     seen = set()
     for f in failures:
         key = (f.get("kind"), f["scope"], f["print"], f["uri"])
